@@ -11,9 +11,9 @@ import WacModel.Program
 
   Reading decisions where LANGUAGE.md is silent or loose (each is listed in notes/C04.md):
   * "exactly one import that has a path which ends with the local name": the candidates are the
-    names whose final path component (after the last `/`, version removed) is the local name; a
-    plain name is its own final component.  So with imports `baz` and `foo:bar/baz` the
-    identifier `baz` is ambiguous and denotes itself.
+    interface paths whose final component (after the last `/`, version removed) is the local
+    name, and the local name itself if it is an import name.  So with imports `baz` and
+    `foo:bar/baz` the identifier `baz` is ambiguous and denotes itself.
   * export name inference (`export e;`): the document only shows "the name that was accessed";
     this evaluator uses rules 1 and 2 of the inferred-argument precedence (associated interface
     path, then import / accessed export name) and otherwise demands `as`.
@@ -49,11 +49,15 @@ def afterLastSlash (p : Str) : Str := (p.reverse.takeWhile (· != '/')).reverse
 /-- final component of a name: for `foo:bar/baz@1.0.0` it is `baz`; a plain name is its own -/
 def finalComponent (p : Str) : Str := (afterLastSlash p).takeWhile (· != '@')
 
+/-- "has a path which ends with the local name": an interface path whose final component is the
+    name; a plain name ends with the identifier only when it is the identifier -/
+def endsWith (n p : Str) : Bool := (p.contains '/' && finalComponent p == n) || p == n
+
 /-- "If the component … has exactly one import that has a path which ends with the local name
     then the path will be used … otherwise the identifier" (named arguments, access
     expressions, step 3 of inferred arguments). -/
 def shortName (n : Str) (names : List Str) : Str :=
-  match names.filter (fun p => finalComponent p == n) with
+  match names.filter (endsWith n) with
   | [p] => p
   | _ => n
 
@@ -103,6 +107,11 @@ def access (v : Val) (name : Str) : Except Diag Val :=
   | .ok none => .error (.missingExport name)
   | .ok (some r) => .ok r
 
+/-- the value of an expression together with the (unchanged) state -/
+def attach (st : St) : Except Diag Val → Except Diag (St × Val)
+  | .error e => .error e
+  | .ok r => .ok (st, r)
+
 /-- the spread arguments of an argument list, in order -/
 def spreadNames : Args → List Str
   | .nil => []
@@ -150,17 +159,11 @@ def evalExpr (lib : Lib) (self : Str) (st : St) : Expr → Except Diag (St × Va
     | .ok (st, v) =>
       match v.kind.instExports with
       | none => .error (.notInstance .access)
-      | some es =>
-        match access v (shortName id es.names) with
-        | .error e => .error e
-        | .ok r => .ok (st, r)
+      | some es => attach st (access v (shortName id es.names))
   | .namedAccess e s =>
     match evalExpr lib self st e with
     | .error e => .error e
-    | .ok (st, v) =>
-      match access v s with
-      | .error e => .error e
-      | .ok r => .ok (st, r)
+    | .ok (st, v) => attach st (access v s)
   | .new pkg ver args =>
     -- the package being defined cannot be instantiated
     if pkg == self then .error (.unknownPackage pkg) else
